@@ -1,4 +1,4 @@
-\* C20: quick: every case on <= 3 modules (self-dependencies allowed, module_depends() calls in name order, every listing, optionally one module without a shared object)
+\* C20: quick: every case on <= 3 modules (self-dependencies allowed, module_depends() calls in name order, every listing, optionally one module without a shared object); every hook profile (which modules lack module_post_init / module_destructor) for the GOOD cases, all hooks for the others (Python draws profiles for a sample of those)
 SPECIFICATION Spec
 CONSTANTS
     Source = "enum"
@@ -7,6 +7,7 @@ CONSTANTS
     DepOrders = "asc"
     WithMissing = TRUE
     WithAnti = FALSE
+    Profiles = "good"
     Bug = "none"
 INVARIANTS
     TypeOK RdependsMirrorsDepends SetEmptyAtExit NoGhostInGoodCase
